@@ -1,0 +1,33 @@
+//go:build verif
+
+package httpd
+
+import (
+	"sort"
+
+	"github.com/gorilla/mux"
+)
+
+// VerifRoute is one (pattern, methods) registration of the live router.
+type VerifRoute struct {
+	Pattern string
+	Methods []string
+}
+
+// VerifRoutes walks the handler's live mux and returns every registered route, in
+// registration order. Verification builds only (build tag `verif`).
+func (h *Handler) VerifRoutes() []VerifRoute {
+	var out []VerifRoute
+	_ = h.mux.Walk(func(route *mux.Route, router *mux.Router, ancestors []*mux.Route) error {
+		p, err := route.GetPathTemplate()
+		if err != nil {
+			p = "?"
+		}
+		m, _ := route.GetMethods()
+		m = append([]string(nil), m...)
+		sort.Strings(m)
+		out = append(out, VerifRoute{Pattern: p, Methods: m})
+		return nil
+	})
+	return out
+}
